@@ -6,6 +6,8 @@ CONSTANTS
   MinZero = TRUE
   KEdge = 2
   KOut = 4
+  HasRit = FALSE
+  KRit = 0
   Variant = "repaired"
 INVARIANT TypeOK
 INVARIANT NoCrash
